@@ -90,6 +90,7 @@ structure Node where
 structure Rec where
   idx : Nat
   ev : String
+  arg : String := "-"
   fault : String
   now : Int
   before : Option Desc
@@ -296,7 +297,7 @@ def doStep (s : St) (stepNo : Nat) (f : List String) : St :=
             let s := if ev == "claim" && committed then
                 { s with nodes := s.nodes.map fun x => if x.cfg.id == arg then { x with inherited := true } else x } else s
             { s with store := store', writes := s.writes + (if committed then 1 else 0),
-                     log := { idx := i, ev := ev, fault := fault, now := now, before := s.store, after := store', loc := loc, file := file, ret := ret, committed := committed } :: s.log,
+                     log := { idx := i, ev := ev, arg := arg, fault := fault, now := now, before := s.store, after := store', loc := loc, file := file, ret := ret, committed := committed } :: s.log,
                      nodes := s.nodes.setIfInBounds i { ndJ with l := l', file := mFile, jFile := ofile, latched := if isCrash then false else latched } }
     | _, _, _ => fail "bad-step-fields"
   | _ => setDiff s s!"step{stepNo}:bad-step"
